@@ -232,15 +232,33 @@ class RSite:
                 pages['/robots.txt'] = Page(403, b'no', ctype='text/plain')
             elif r['kind'] == 'error':
                 pages['/robots.txt'] = Page(503, b'busy', ctype='text/plain')
+            elif r['kind'] == 'dropped-once':
+                # the first request is answered by closing the connection without a byte (a network error: the URL is
+                # postponed); afterwards the file is served
+                state = {'n': 0}
+                good = Page(200, r['text'].encode('latin-1'), ctype='text/plain')
+
+                def flaky(entry, state=state, good=good):
+                    state['n'] += 1
+                    return Page(raw=b'', close=True) if state['n'] == 1 else good
+                pages['/robots.txt'] = flaky
             elif r['kind'] == 'redirect':
                 moved = (b'<html><head><title>301 Moved Permanently</title></head><body><h1>Moved Permanently</h1>'
                          b'<p>The document has moved <a href="/r2.txt">here</a>.</p>' + b'<!-- pad -->' * 40 + b'</body></html>')
                 hops = r.get('hops', 1)
                 chain = ['/robots.txt'] + ['/r%d.txt' % (i + 2) for i in range(hops)]
+                if r.get('via'):
+                    # the last hop is a file on ANOTHER origin (not that origin's own /robots.txt)
+                    chain[-1] = origin_base(r['via']) + '/static/robots-of-%d.txt' % (abs(hash(host)) % 100)
+                    out.setdefault('__foreign__', []).append((r['via'], '/static/robots-of-%d.txt' % (abs(hash(host)) % 100), r['text']))
                 for a, b in zip(chain, chain[1:]):
                     pages[a] = Page(301, moved if r.get('redirect_body', True) else b'', location=b)
-                pages[chain[-1]] = Page(200, r['text'].encode('latin-1'), ctype='text/plain')
+                if not r.get('via'):
+                    pages[chain[-1]] = Page(200, r['text'].encode('latin-1'), ctype='text/plain')
             out[host] = pages
+        for via, path, text in out.pop('__foreign__', []):
+            if via in out:
+                out[via][path] = Page(200, text.encode('latin-1'), ctype='text/plain')
         return out
 
     def describe(self):
@@ -267,9 +285,9 @@ def gen_rsite(rng, big=None):
     hosts = ['a.test'] + (['a.test:81'] if rng.random() < 0.5 else []) + (['a.test#443'] if rng.random() < 0.35 else [])
     names = ['/', '/a', '/b', '/private/x', '/private/y', '/pub/z', '/p.png', '/nf', '/only-nf', '/s?q=1', '/s?q=2', '/s', '/t;v=1']
     for h in hosts:
-        kind = rng.choice(['ok', 'ok', 'ok', 'missing', 'error', 'redirect', 'forbidden'])
+        kind = rng.choice(['ok', 'ok', 'ok', 'missing', 'error', 'redirect', 'redirect', 'forbidden', 'dropped-once'])
         text = ''
-        if kind in ('ok', 'redirect'):
+        if kind in ('ok', 'redirect', 'dropped-once'):
             groups = []
             if rng.random() < 0.4:
                 groups.append('User-agent: wpull\n' + ''.join(rng.choice(['Disallow: /private\n', 'Disallow: /b\n', 'Allow: /private/x\nDisallow: /private\n', 'Disallow: /*.png$\n', 'Disallow:\n', 'Disallow: /s?q=1\n', 'Disallow: /*?q=\n', 'Allow: /s?q=2\nDisallow: /s\n', 'Disallow: /t;v\n'])
@@ -303,6 +321,9 @@ def gen_rsite(rng, big=None):
             # bytes that are not UTF-8 (a Latin-1 comment): the file is still a robots.txt
             text = '# Acc\xe8s r\xe9serv\xe9 aux abonn\xe9s \xff\n' + text
         s.origins[h] = {'robots': {'kind': kind, 'text': text, 'hops': rng.choice([1, 1, 2, 3])}, 'pages': pages}
+        others = [x for x in hosts if x != h]
+        if kind == 'redirect' and others and rng.random() < 0.5:
+            s.origins[h]['robots']['via'] = rng.choice(others)
     m = rng.choice([None, None, 1, 2, 3])        # --max-redirect: a robots.txt behind more hops than that counts as missing
     for o in s.origins.values():
         o['robots']['max_redirect'] = m
@@ -471,16 +492,18 @@ def judge(ctx, r, reply, case, site):
         o = site.origins.get(ok_)
         if o is None:
             continue
+        if q['target'].startswith('/static/robots-of-') or q['target'] in ('/r2.txt', '/r3.txt', '/r4.txt'):
+            continue        # a hop of obtaining SOME origin's robots.txt (the file may live on another origin)
         if ok_ not in first_seen:
             first_seen.add(ok_)
             if q['target'] != '/robots.txt':
                 ctx.fail('robots-not-first', 'origin', case, 'first request to %s is %s' % (origin_base(ok_), q['target']))
         rb = o['robots']
-        if q['target'] in ('/robots.txt', '/r2.txt', '/r3.txt', '/r4.txt'):
+        if q['target'] in ('/robots.txt', '/r2.txt', '/r3.txt', '/r4.txt') or q['target'].startswith('/static/robots-of-'):
             continue
         if rb['kind'] == 'error':
             ctx.fail('fetched-despite-5xx', 'robots', case, '%s%s requested although robots.txt answers 503' % (q['host'], q['target']))
-        elif rb['kind'] in ('ok', 'redirect') and not ref_allowed(effective_rules(rb), q['ua'], q['target']):
+        elif rb['kind'] in ('ok', 'redirect', 'dropped-once') and not ref_allowed(effective_rules(rb), q['ua'], q['target']):
             via_redirect = any(p['kind'] == 'redirect' and p['location'] == q['target'] for p in o['pages'].values())
             big = len(rb['text']) > 4096
             where = 'redirect-hop' if via_redirect else ('beyond-4096' if big else 'plain')
